@@ -253,7 +253,7 @@ def witness_crate(d: Decl, extra_inputs=()):
         main.append('        let cands: Vec<(%s, &str)> = vec![%s];\n' % (t, ', '.join('(%s, %s)' % (c, json.dumps(c)) for c in cands)))
         main.append('        for (x, label) in cands { check_one(x, &format!("{} = {:?}", label, x), &setting, &mut n); }\n    }\n')
     elif d.family == 'string':
-        main.append('    let alphabet = [" ", "a", "A", "\\u{df}", "\\u{130}", "\\u{3a3}", "\\u{a0}", "-", "@", "\\u{1c6}", "\\t", "_"];\n')
+        main.append('    let alphabet = [" ", "a", "A", "\\u{df}", "\\u{130}", "\\u{3a3}", "\\u{a0}", "-", "@", "\\u{1c6}", "\\t", "_", "7"];\n')
         main.append('    let mut cands: Vec<String> = vec![String::new()];\n'
                     '    for a in alphabet { cands.push(a.to_string()); for b in alphabet { cands.push(format!("{a}{b}")); for c in alphabet { cands.push(format!("{a}{b}{c}")); } } }\n'
                     '    for n in [4usize, 5, 7, 8, 9, 19, 20, 21, 22] { cands.push("x".repeat(n)); cands.push("\\u{df}".repeat(n)); cands.push(format!(" {} ", "Q".repeat(n))); }\n')
@@ -280,13 +280,15 @@ def run_witness(d: Decl, extra_inputs=(), features=()):
     crate = os.path.join(WORK, 'witness', d.id)
     shutil.rmtree(crate, ignore_errors=True)
     os.makedirs(os.path.join(crate, 'src'))
-    feats = sorted(set(features) | ({'new_unchecked'} if d.new_unchecked else set()) | ({'arbitrary'} if 'Arbitrary' in d.derives else set()) | ({'serde'} if 'Deserialize' in d.derives or 'Serialize' in d.derives else set()))
+    feats = sorted(set(features) | ({'new_unchecked'} if d.new_unchecked else set()) | ({'arbitrary'} if 'Arbitrary' in d.derives else set()) | ({'serde'} if 'Deserialize' in d.derives or 'Serialize' in d.derives else set()) | ({'regex'} if any(v.kind == 'regex' for v in d.validators) else set()))
     with open(os.path.join(crate, 'Cargo.toml'), 'w') as f:
         deps = ''
         if 'serde' in feats:
             deps += 'serde = { version = "1", default-features = false, features = ["std"] }\nserde_json = "1"\n'
         if 'arbitrary' in feats:
             deps += 'arbitrary = "1"\n'
+        if 'regex' in feats:
+            deps += 'regex = "1"\n'
         f.write('[package]\nname = "nutype_verif_witness"\nversion = "0.0.0"\nedition = "2021"\n\n[workspace]\n\n'
                 '[dependencies]\nnutype = { path = "%s/nutype", features = %s }\n%s' % (pipeline.REPO, json.dumps(feats), deps))
     shutil.copy(os.path.join(pipeline.REPO, 'Cargo.lock'), os.path.join(crate, 'Cargo.lock'))
